@@ -67,17 +67,30 @@ class Stages(AbsInt):
             return frozenset({('scores',)})
         return None
 
+    def _scalar(self, node, val, fr):
+        """Folded magnitude of a scalar operand of the ridge term, or None."""
+        from ..constfold import fold
+        return fold(self.prog, fr.fn.module, node, fr.fn.node)
+
     def binop(self, node, left, right, fr):
-        if isinstance(node.op, ast.Mult):
-            for a, b in ((left, right), (right, left)):
-                if a == ('identity',) and isinstance(b, tuple) and b and b[0] == 'const':
-                    return ('ridge-term', b[1])
+        if isinstance(node.op, (ast.Mult, ast.Div)):
+            pairs = ((left, right, node.right), (right, left, node.left)) if isinstance(node.op, ast.Mult) else ((left, right, node.right),)
+            for a, b, bn in pairs:
                 if a == ('identity',) and not isinstance(b, frozenset):
-                    return ('ridge-term', '?')
-        if isinstance(node.op, ast.Add):
-            for a, b in ((left, right), (right, left)):
+                    v = self._scalar(bn, b, fr)
+                    if v is not None and isinstance(node.op, ast.Div):
+                        v = 1.0 / v if v else float('inf')
+                    return ('ridge-term', v)
+        if isinstance(node.op, (ast.Add, ast.Sub)):
+            pairs = ((left, right), (right, left)) if isinstance(node.op, ast.Add) else ((left, right),)
+            for a, b in pairs:
                 if isinstance(b, tuple) and b and b[0] == 'ridge-term' and isinstance(a, frozenset):
-                    return self.each(a, lambda alt: alt + ('ridge:' + str(b[1]),))
+                    v = b[1]
+                    if v is not None and isinstance(node.op, ast.Sub):
+                        v = -v
+                    return self.each(a, lambda alt: alt + ('ridge:' + ('?' if v is None else repr(v)),))
+                if b == ('identity',) and isinstance(a, frozenset):
+                    return self.each(a, lambda alt: alt + ('ridge:' + repr(-1.0 if isinstance(node.op, ast.Sub) else 1.0),))
         return TOP
 
     def returns(self, fr):
@@ -153,10 +166,19 @@ def run(ctx, rep):
             rep.undecided('D2.ridge', fn, fn.node.name, 'a test on np.linalg.cond(...) of a form that is not recognised', construct='cond guard')
         else:
             rep.ok('D2.ridge', fn, fn.node.name, 'ridge decision taken when cond(c) is LARGE (> 1/machine epsilon)', construct='cond guard')
-            good = bool(ridged) and all('G+' in a for a in ridged) and all(x == 'ridge:copulas.utils.EPSILON' for a in ridged for x in a if x.startswith('ridge:')) \
-                and all('G+' not in a for a in plain)
-            rep.check('D2.ridge', fn, anchor, good, 'exactly the ill-conditioned path adds EPSILON * identity',
-                      f'the ill-conditioned path does not add EPSILON * identity (alternatives {alts})', construct='ridge on the ill-conditioned path')
+            sizes = [x[6:] for a in ridged for x in a if x.startswith('ridge:')]
+            placed = bool(ridged) and all('G+' in a for a in ridged) and all('G+' not in a for a in plain)
+            if not placed:
+                rep.bad('D2.ridge', fn, anchor, f'the ridge is not added on exactly the ill-conditioned path (alternatives {alts})', construct='ridge on the ill-conditioned path')
+            elif any(x == '?' for x in sizes):
+                rep.undecided('D2.ridge', fn, anchor, 'the size of the ridge added on the ill-conditioned path is not a foldable constant', construct='ridge on the ill-conditioned path')
+            else:
+                vals = [float(x) for x in sizes]
+                good = all(1e-12 <= v <= 1e-6 for v in vals)
+                rep.check('D2.ridge', fn, anchor, good, f'exactly the ill-conditioned path adds a ridge of {vals[0]:.3g} * identity',
+                          f'the ill-conditioned path changes the diagonal by {vals} instead of a small positive ridge of order 1e-7: '
+                          + ('the matrix is pushed away from positive definiteness' if any(v <= 0 for v in vals) else 'the unit diagonal is lost'),
+                          construct='ridge on the ill-conditioned path')
     gauss.report_space(ctx, rep, 'D3.scores', ['_transform_to_normal', '_get_correlation'])
     sk, facts = gauss.space_analysis(ctx)
     tn = gauss.gm_method(ctx, '_transform_to_normal')
@@ -235,9 +257,9 @@ def _mentions_cond(prog, fn, test):
 
 
 def _is_cond_guard(prog, fn, test):
-    """Classifies a test that mentions np.linalg.cond: ('good', flip) for cond(x) > BIG (flip: the test is its negation,
-    e.g. `not cond(x) > BIG` or `cond(x) <= BIG`), ('bad', flip) for a recognised comparison with a threshold that is
-    too small, ('unknown', False) otherwise.  BIG = 1/eps or a literal >= 1e8."""
+    """Classifies a test that mentions np.linalg.cond: ('good', flip) for cond(x) > T with a folded threshold T <= 1e16
+    (flip: the test is its negation, e.g. `not cond(x) > T` or `cond(x) <= T`), ('bad', flip) for T >= 1e17 (never or
+    hardly ever exceeded), ('unknown', False) otherwise."""
     flip = False
     while isinstance(test, ast.UnaryOp) and isinstance(test.op, ast.Not):
         test, flip = test.operand, not flip
@@ -254,17 +276,14 @@ def _is_cond_guard(prog, fn, test):
         return 'unknown', False
     if isinstance(op, (ast.Lt, ast.LtE)):
         flip = not flip  # cond(x) <= BIG is the negation of the guard
-    v = const_value(r)
-    if isinstance(v, (int, float)):
-        return ('good' if v >= 1e8 else 'bad'), flip
-    if isinstance(r, ast.BinOp) and isinstance(r.op, ast.Div) and const_value(r.left) in (1, 1.0):
-        d = prog.resolve(fn.module, r.right) or ''
-        dv = const_value(r.right)
-        if d.endswith('epsilon') or d.endswith('.eps') or d == 'copulas.utils.EPSILON' or (isinstance(dv, float) and 0 < dv <= 1e-8):
-            return 'good', flip
-        if isinstance(dv, (int, float)):
-            return 'bad', flip
-    d = prog.resolve(fn.module, r) or ''
-    if d.endswith(('float_info.max', '.inf', 'float_info.epsilon', '.eps', 'EPSILON', 'float_info.min')):
-        return 'bad', flip  # a threshold that is never / always exceeded by a condition number
+    from ..constfold import fold
+    v = fold(prog, fn.module, r, fn.node)
+    if v is None or v != v:
+        return 'unknown', False
+    # every numerically singular matrix (cond > 1/eps ~ 4.5e15) must take the ridge path; a lower threshold only regularises more
+    # often, which the property allows ("up to a ridge of order 1e-7"); a threshold beyond 1e17 leaves singular matrices alone
+    if v <= 1e16:
+        return 'good', flip
+    if v >= 1e17:
+        return 'bad', flip
     return 'unknown', False
